@@ -311,6 +311,8 @@ func createJSONAndEvalFunctions(c *Config) {
 		MaxArgs:  1,
 		ArgTypes: []object.Type{object.STRING},
 		Help:     "filename (.gr)",
+		// The file and the globals change between two calls with the same name.
+		DontCache: true,
 	}
 	if c.HasSave {
 		loadSaveFn.Name = "save"
